@@ -922,6 +922,157 @@ theorem c04_outputs_erase (E : Erasure σ₄ S C σ₃ α) (s : C04.Split σ₄ 
     (C04.outputs (s.runTrace st0 flow).1).map E.item = C03.outputs ((E.split s).runTrace (E.buf flow)) := by
   rw [← c04_run_erases E s hv hs, E.outputs_trace]
 
+/-! ### `Split._fill`, `Zip._fill`, `_compute`, `_request` -/
+
+namespace Erasure
+variable (E : Erasure σ₄ S C σ₃ α)
+
+/-- the value handed to a branch by `_fill` — `copy.deepcopy(val)` or `val` — erases to the same plain value -/
+theorem fillOne_item (copied : Bool) (x : Item S) (ns : Nat) (w : World C) :
+    E.item ((if copied then C04.deepcopy ns w [x] else (w, [x])).2.headD x) = E.item x := by
+  cases copied with
+  | false => rfl
+  | true =>
+    have h1 := C04.deepcopy_single ns w x
+    have h2 := (C04.deepcopy_spec ns w [x]).2.1
+    rw [h1] at h2
+    simp only [List.map_cons, List.map_nil, List.cons.injEq, and_true] at h2
+    simp only [if_true, item, h2]
+
+/-- `seq.fill(copy.deepcopy(val))` / `seq.fill(val)` for one branch -/
+theorem fillOne_erases (copied : Bool) (x : Item S) (w : World C) (b : C04.Branch σ₄ S C) (h : E.Sound b.ops) :
+    E.branch (C04.fillOne copied x w b).2.2.1 =
+      { E.branch b with st := ((E.ops b.ops).fill (E.abs b.st) (E.item x)).1 } ∧
+    (C04.fillOne copied x w b).2.2.2 = ((E.ops b.ops).fill (E.abs b.st) (E.item x)).2 ∧
+    (C04.fillOne copied x w b).2.2.1.ops = b.ops := by
+  have hi := E.fillOne_item copied x (C04.copyNsOf b.id) w
+  have hf := h.fill (if copied then C04.deepcopy (C04.copyNsOf b.id) w [x] else (w, [x])).1.st b.st
+    ((if copied then C04.deepcopy (C04.copyNsOf b.id) w [x] else (w, [x])).2.headD x)
+  rw [hi] at hf
+  refine ⟨?_, ?_, rfl⟩
+  · simp only [C04.fillOne, branch]
+    rw [← congrArg Prod.fst hf]
+  · simp only [C04.fillOne]
+    rw [← congrArg Prod.snd hf]
+
+/-- the loop shared by `Split._fill` and `Zip._fill`, for any copy policy -/
+theorem fillLoop_erases (x : Item S) (loop : World C → List (C04.Branch σ₄ S C) → C04.FillAllRes σ₄ S C)
+    (copied : List (C04.Branch σ₄ S C) → Bool)
+    (hnil : ∀ w, loop w [] = ⟨[], w, [], false⟩)
+    (hcons : ∀ w b rest, loop w (b :: rest) =
+      (let r := C04.fillOne (copied rest) x w b
+       if r.2.2.2 then ⟨r.1, r.2.1, r.2.2.1 :: rest, true⟩
+       else
+         let q := loop r.2.1 rest
+         ⟨r.1 ++ q.evs, q.w, r.2.2.1 :: q.brs, q.stopped⟩)) :
+    ∀ (brs : List (C04.Branch σ₄ S C)) (w : World C), (∀ b ∈ brs, E.Sound b.ops) →
+      ((loop w brs).brs.map E.branch, (loop w brs).stopped) = C03.splitFill (E.item x) (brs.map E.branch) ∧
+      (∀ b ∈ (loop w brs).brs, E.Sound b.ops)
+  | [], w, _ => by rw [hnil]; exact ⟨rfl, by intro b hb; simp at hb⟩
+  | b :: rest, w, hs => by
+    have hb := hs b (List.mem_cons_self ..)
+    have hrest : ∀ b' ∈ rest, E.Sound b'.ops := fun b' hb' => hs b' (List.mem_cons_of_mem _ hb')
+    obtain ⟨f1, f2, f3⟩ := E.fillOne_erases (copied rest) x w b hb
+    rw [hcons]
+    simp only [List.map_cons, C03.splitFill]
+    have hbr : (E.branch b).ops.fill (E.branch b).st (E.item x) = (E.ops b.ops).fill (E.abs b.st) (E.item x) := rfl
+    rw [hbr]
+    by_cases hst : (C04.fillOne (copied rest) x w b).2.2.2 = true
+    · have hst' : ((E.ops b.ops).fill (E.abs b.st) (E.item x)).2 = true := by rw [← f2]; exact hst
+      have hp : (E.ops b.ops).fill (E.abs b.st) (E.item x)
+          = (((E.ops b.ops).fill (E.abs b.st) (E.item x)).1, true) := Prod.ext rfl hst'
+      rw [hp]
+      simp only [hst, if_true, List.map_cons, f1]
+      refine ⟨by first | trivial | rfl, ?_⟩
+      intro b' hb'
+      rcases List.mem_cons.mp hb' with rfl | hb'
+      · rw [f3]; exact hb
+      · exact hrest b' hb'
+    · have hst0 : (C04.fillOne (copied rest) x w b).2.2.2 = false := by simpa using hst
+      have hst' : ((E.ops b.ops).fill (E.abs b.st) (E.item x)).2 = false := by rw [← f2]; exact hst0
+      have hp : (E.ops b.ops).fill (E.abs b.st) (E.item x)
+          = (((E.ops b.ops).fill (E.abs b.st) (E.item x)).1, false) := Prod.ext rfl hst'
+      rw [hp]
+      obtain ⟨i1, i2⟩ := fillLoop_erases x loop copied hnil hcons rest (C04.fillOne (copied rest) x w b).2.1 hrest
+      simp only [hst0, Bool.false_eq_true, if_false, List.map_cons, f1]
+      rw [← i1]
+      refine ⟨by first | trivial | rfl, ?_⟩
+      intro b' hb'
+      rcases List.mem_cons.mp hb' with rfl | hb'
+      · rw [f3]; exact hb
+      · exact i2 b' hb'
+
+end Erasure
+
+/-- **C04 ↔ C03, `Split._fill(val)`** (split.py:257-263), both values of `copy_buf`: the branches afterwards
+and whether `LenaStopFill` left the loop -/
+theorem c04_splitFill_erases (E : Erasure σ₄ S C σ₃ α) (copyBuf : Bool) (x : Item S)
+    (brs : List (C04.Branch σ₄ S C)) (w : World C) (hs : ∀ b ∈ brs, E.Sound b.ops) :
+    ((C04.splitFill copyBuf x w brs).brs.map E.branch, (C04.splitFill copyBuf x w brs).stopped)
+      = C03.splitFill (E.item x) (brs.map E.branch) :=
+  (E.fillLoop_erases x (C04.splitFill copyBuf x) (fun rest => copyBuf && !rest.isEmpty)
+    (fun _ => rfl) (fun _ _ _ => rfl) brs w hs).1
+
+/-- **C04 ↔ C03, `Zip._fill(val)`** (zip.py:100-102; C03 re-uses `splitFill`: `C03.zipFill`) -/
+theorem c04_zipFill_erases (E : Erasure σ₄ S C σ₃ α) (x : Item S)
+    (brs : List (C04.Branch σ₄ S C)) (w : World C) (hs : ∀ b ∈ brs, E.Sound b.ops) :
+    ((C04.zipFill x w brs).brs.map E.branch, (C04.zipFill x w brs).stopped)
+      = C03.zipFill (E.item x) (brs.map E.branch) :=
+  (E.fillLoop_erases x (C04.zipFill x) (fun _ => true) (fun _ => rfl) (fun _ _ _ => rfl) brs w hs).1
+
+/-- **C04 ↔ C03, a caller that fills a whole flow** (`for val in flow: split.fill(val)` until `LenaStopFill`):
+`C04.fillFlow (splitFill copyBuf)` ↦ `C03.splitFillAll` -/
+theorem c04_fillFlow_erases (E : Erasure σ₄ S C σ₃ α) (copyBuf : Bool) :
+    ∀ (flow : List (Item S)) (brs : List (C04.Branch σ₄ S C)) (w : World C), (∀ b ∈ brs, E.Sound b.ops) →
+      ((C04.fillFlow (C04.splitFill copyBuf) w brs flow).brs.map E.branch,
+        (C04.fillFlow (C04.splitFill copyBuf) w brs flow).stopped)
+        = C03.splitFillAll (brs.map E.branch) (E.buf flow)
+  | [], _, _, _ => rfl
+  | x :: xs, brs, w, hs => by
+    obtain ⟨f1, f2⟩ := E.fillLoop_erases x (C04.splitFill copyBuf x) (fun rest => copyBuf && !rest.isEmpty)
+      (fun _ => rfl) (fun _ _ _ => rfl) brs w hs
+    simp only [C04.fillFlow, Erasure.buf, List.map_cons, C03.splitFillAll]
+    rw [← f1]
+    by_cases hst : (C04.splitFill copyBuf x w brs).stopped = true
+    · simp [hst]
+    · have hst0 : (C04.splitFill copyBuf x w brs).stopped = false := by simpa using hst
+      simp only [hst0, Bool.false_eq_true, if_false]
+      exact c04_fillFlow_erases E copyBuf xs _ _ f2
+
+/-- **C04 ↔ C03, `Split._compute()` / `Split._request()`** (split.py:265-273): `C04.collect` ↦
+`C03.splitCompute` / `C03.splitRequest` -/
+theorem c04_compute_erases (E : Erasure σ₄ S C σ₃ α) :
+    ∀ (brs : List (C04.Branch σ₄ S C)) (st : Store C), (∀ b ∈ brs, E.Sound b.ops) →
+      ((C04.outputs (C04.collect .compute C04.Ev.compute st brs).1).map E.item,
+        (C04.collect .compute C04.Ev.compute st brs).2.2.map E.branch) = C03.splitCompute (brs.map E.branch)
+  | [], _, _ => rfl
+  | b :: rest, st, hs => by
+    have hb := hs b (List.mem_cons_self ..)
+    have hc := hb.compute st b.st
+    have ih := c04_compute_erases E rest (b.ops.act st b.st .compute).1 (fun b' hb' => hs b' (List.mem_cons_of_mem _ hb'))
+    simp only [C04.collect, List.map_cons, C03.splitCompute, C04.outputs, C04.outputs_append, C04.outputs_outsEv,
+      List.map_append]
+    rw [← ih]
+    have hbr : (E.branch b).ops.compute (E.branch b).st = (E.ops b.ops).compute (E.abs b.st) := rfl
+    rw [hbr, ← hc]
+    rfl
+
+theorem c04_request_erases (E : Erasure σ₄ S C σ₃ α) :
+    ∀ (brs : List (C04.Branch σ₄ S C)) (st : Store C), (∀ b ∈ brs, E.Sound b.ops) →
+      ((C04.outputs (C04.collect .request C04.Ev.request st brs).1).map E.item,
+        (C04.collect .request C04.Ev.request st brs).2.2.map E.branch) = C03.splitRequest (brs.map E.branch)
+  | [], _, _ => rfl
+  | b :: rest, st, hs => by
+    have hb := hs b (List.mem_cons_self ..)
+    have hc := hb.request st b.st
+    have ih := c04_request_erases E rest (b.ops.act st b.st .request).1 (fun b' hb' => hs b' (List.mem_cons_of_mem _ hb'))
+    simp only [C04.collect, List.map_cons, C03.splitRequest, C04.outputs, C04.outputs_append, C04.outputs_outsEv,
+      List.map_append]
+    rw [← ih]
+    have hbr : (E.branch b).ops.request (E.branch b).st = (E.ops b.ops).request (E.abs b.st) := rfl
+    rw [hbr, ← hc]
+    rfl
+
 end c04
 
 end Lena.Bridge.Split
